@@ -148,6 +148,7 @@ def check(case, ctx):
         sarg = int(s)
         ctx.event("integer-typed-s")
     f1 = float(structure.FormFactor(el, sarg))
+    ctx.later("FormFactor", structure.FormFactor, el, float(s))
     ref = _f(c, s)
     ctx.near("FormFactor=formula(point)", abs(f1 - ref) / abs(ref), 1e-13, "FormFactor/formula/" + el, "%s at s=%r: %r vs %r" % (el, s, f1, ref))
     if not f1 > 0:
